@@ -6,7 +6,7 @@ sys.path.insert(0, os.path.join(ROOT, 'tools'))
 import props
 ids = [json.loads(l)['id'] for l in open(os.path.join(ROOT, 'properties.jsonl'))]
 checks = []
-TIE = {'C%02d' % i for i in range(1, 21)} - {'C11'}
+TIE = {'C%02d' % i for i in range(1, 21)}
 for pid in ids:
     if pid not in props.REGISTRY or not props.REGISTRY[pid].get('claimed', True):
         continue
